@@ -982,18 +982,18 @@ type Axiom struct {
 }
 
 type Registry struct {
-	usorts   map[string]bool
-	usortOrd []string
-	dts      map[string]*Datatype
-	dtOrd    []string
-	funcs    map[string]*FuncDecl
-	ctorOf   map[string]*Datatype // constructor name -> datatype
-	selOf    map[string]selInfo   // selector name -> ctor / index
-	axioms   []*Axiom
-	noQuantAxioms bool // candidate-model mode of the replayer: leave quantified axioms out of scripts
-	strLits  map[string]*string // symbol -> literal text
-	strSyms  map[string]string  // text -> symbol
-	fresh    int
+	usorts        map[string]bool
+	usortOrd      []string
+	dts           map[string]*Datatype
+	dtOrd         []string
+	funcs         map[string]*FuncDecl
+	ctorOf        map[string]*Datatype // constructor name -> datatype
+	selOf         map[string]selInfo   // selector name -> ctor / index
+	axioms        []*Axiom
+	noQuantAxioms bool               // candidate-model mode of the replayer: leave quantified axioms out of scripts
+	strLits       map[string]*string // symbol -> literal text
+	strSyms       map[string]string  // text -> symbol
+	fresh         int
 }
 
 type selInfo struct {
